@@ -106,6 +106,9 @@ func cmdVerify(args []string) {
 		for _, u := range rep.Unsupported {
 			fmt.Println("   UNSUPPORTED:", u)
 		}
+		if len(rep.Ends) > 0 {
+			fmt.Println("   path ends:", rep.Ends)
+		}
 		for _, u := range rep.Unmodelled {
 			fmt.Println("   unmodelled call:", u)
 		}
